@@ -250,6 +250,13 @@ func (r *Decoder) decodeElement(ectx evaluationContext, element jsonldinternal.E
 			return err
 		}
 
+		listPropertyRange := elementObject.PropertySourceOffsets
+
+		if dropValuePropertyRange {
+			// a list inside a list: the predicate is the generated rdf:first of the outer list
+			listPropertyRange = nil
+		}
+
 		if len(listArray.Values) == 0 {
 			if ectx.ActiveProperty != nil {
 				r.statements = append(r.statements, statement{
@@ -264,7 +271,7 @@ func (r *Decoder) decodeElement(ectx evaluationContext, element jsonldinternal.E
 					textOffsets: r.buildTextOffsets(
 						encoding.GraphNameStatementOffsets, ectx.ActiveGraphRange,
 						encoding.SubjectStatementOffsets, ectx.ActiveSubjectRange,
-						encoding.PredicateStatementOffsets, elementObject.PropertySourceOffsets,
+						encoding.PredicateStatementOffsets, listPropertyRange,
 						// TODO range iff BeginToken/EndToken known
 						// Object,    atList.Value.BeginToken.OffsetRange.NewUntilOffset(atListArray.EndToken.OffsetRange.UntilOffset()),
 					),
@@ -274,7 +281,7 @@ func (r *Decoder) decodeElement(ectx evaluationContext, element jsonldinternal.E
 		} else {
 			listSubject := ectx.global.bnStringFactory.NewBlankNode()
 
-			propagatePropertyRange := elementObject.PropertySourceOffsets
+			propagatePropertyRange := listPropertyRange
 
 			if ectx.ActiveProperty != nil {
 				r.statements = append(r.statements, statement{
@@ -407,6 +414,13 @@ func (r *Decoder) decodeElement(ectx evaluationContext, element jsonldinternal.E
 
 			ectx.Reverse = false
 		} else {
+			predicateRange := elementObject.PropertySourceOffsets
+
+			if dropValuePropertyRange {
+				// a list item: the predicate is the generated rdf:first, not the property the list was found under
+				predicateRange = nil
+			}
+
 			r.statements = append(r.statements, statement{
 				quad: rdf.Quad{
 					Triple: rdf.Triple{
@@ -419,7 +433,7 @@ func (r *Decoder) decodeElement(ectx evaluationContext, element jsonldinternal.E
 				textOffsets: r.buildTextOffsets(
 					encoding.GraphNameStatementOffsets, ectx.ActiveGraphRange,
 					encoding.SubjectStatementOffsets, ectx.ActiveSubjectRange,
-					encoding.PredicateStatementOffsets, elementObject.PropertySourceOffsets,
+					encoding.PredicateStatementOffsets, predicateRange,
 					encoding.ObjectStatementOffsets, selfSubjectRange,
 				),
 				containerResource: ectx.CurrentContainer,
